@@ -52,7 +52,9 @@ func (p *pool) Acquire(ctx context.Context) (v wire) {
 		go func() {
 			<-poolCtx.Done()
 			if context.Cause(poolCtx) != errAcquireComplete { // no need to broadcast if the poolCtx is cancelled explicitly.
+				p.cond.L.Lock() // hold the lock so that the broadcast can't slip in between the waiter's ctx check and its cond.Wait
 				p.cond.Broadcast()
+				p.cond.L.Unlock()
 			}
 		}()
 	}
